@@ -174,8 +174,15 @@ def execute_clock(sc) -> Result:
     if int(tk.Nsteps) != nst:
         bad("C13.nsteps", None, "Nsteps", tk.Nsteps, nst)
     want_units = f"seconds since {t(ref)}"
-    if tk.cf_units("s") != want_units:
-        bad("C13.nctime", None, "cf_units", tk.cf_units("s"), want_units)
+    got_units = str(tk.cf_units("s"))
+    ok_units = False
+    if got_units.startswith("seconds since "):
+        try:
+            ok_units = np.datetime64(got_units[len("seconds since "):].strip().replace(" ", "T"), "s") == t(ref)
+        except ValueError:
+            ok_units = False
+    if not ok_units:
+        bad("C13.nctime", None, "cf_units", got_units, want_units)
     try:
         for n in range(0, nst + 2):
             tk.update()
